@@ -22,14 +22,15 @@ def diskPre (c : Cfg) (C : LegacyC) (files' : NMap Bytes) : Disk :=
     phdr := some ⟨c.pfs, 0⟩, pfiles := setFiles [] 0 (C.pfilesL c.pfs), free := some [], freeGc := none }
 
 theorem remapIndexU_legacy (hc : c.Legal) (hwf : LegacyWFU c U C) (hn1 : C.recs.length < 1073741824)
-    (hn2 : C.gens.length < 1073741824) (files' : NMap Bytes)
+    (hn2 : C.gens.length < 1073741824) (dl : Option Bytes) (files' : NMap Bytes)
     (hfiles : ∀ f, files'.get? f = (setFiles [] 0 (C.ifilesL c.ifs)).get? f) :
-    ∃ ifs, remapIndexU { disk := C.diskPre c files' } ⟨c.bits, c.ifs, 0, 0⟩ c.pfs 0 (C.lastP c) (C.tableT c) [] =
-        some ({ disk := C.diskU c ifs }, []) ∧
+    ∃ ifs, remapIndexU { data := dl, disk := C.diskPre c files' } ⟨c.bits, c.ifs, 0, 0⟩ c.pfs 0 (C.lastP c)
+        (C.tableT c) [] = some ({ data := dl, disk := C.diskU c ifs }, []) ∧
       (∀ f, f ≤ C.lastI c → ifs.get? f = some (logBytes (C.lgU c f))) ∧
       (∀ f, C.lastI c < f → ifs.get? f = none) := by
   unfold remapIndexU
-  have hsz : primarySizes ({ disk := C.diskPre c files' } : UDir).disk.pfiles (C.lastP c + 1 - 0) 0 = C.psizes c :=
+  have hsz : primarySizes ({ data := dl, disk := C.diskPre c files' } : UDir).disk.pfiles (C.lastP c + 1 - 0) 0 =
+      C.psizes c :=
     psizes_eq
   simp only [hsz]
   cases hnr : needRemap c.pfs (C.psizes c) with
@@ -55,7 +56,7 @@ theorem remapIndexU_legacy (hc : c.Legal) (hwf : LegacyWFU c U C) (hn1 : C.recs.
       simp only at h3
       omega
     obtain ⟨ifs, h1, h2⟩ := remapFiles_fold (remap := C.remapC c) (imax := c.ifs) (lg := C.lg c.ifs) hsorted
-      (bucketFiles c.ifs (C.tableT c)) { disk := C.diskPre c files' } (bucketFiles_nodup _ _) rfl
+      (bucketFiles c.ifs (C.tableT c)) { data := dl, disk := C.diskPre c files' } (bucketFiles_nodup _ _) rfl
       (fun f _ hm => by cases hm)
       (fun f hf => ⟨by
         show files'.get? f = _
@@ -63,7 +64,7 @@ theorem remapIndexU_legacy (hc : c.Legal) (hwf : LegacyWFU c U C) (hn1 : C.recs.
     refine ⟨ifs, ?_, ?_, ?_⟩
     · have h1' : (bucketFiles c.ifs (C.tableT c)).foldlM
           (remapOneFile (remapOff 0 c.pfs (C.psizes c)) c.ifs (C.tableT c))
-          (({ disk := C.diskPre c files' } : UDir), ([] : NMap RecordList)) = _ := h1
+          (({ data := dl, disk := C.diskPre c files' } : UDir), ([] : NMap RecordList)) = _ := h1
       simp only [h1', filter_not_contains_rev]
       rfl
     · intro f hf
@@ -80,10 +81,11 @@ theorem remapIndexU_legacy (hc : c.Legal) (hwf : LegacyWFU c U C) (hn1 : C.recs.
       show files'.get? f = _
       rw [hfiles, ifiles0_none f hf]
 
-theorem upgradeIndexU_legacy (hok : ∀ r ∈ C.gens, (encodeRL r.2).length + 4 < two32) (d1 : Disk) :
-    upgradeIndexU c.ifs { index := some ([2, 0, 0, 0, 2, C.bits] ++ logBytes C.gens), disk := d1 } =
-      some { disk := { d1 with ifiles := setFiles d1.ifiles 0 (C.ifilesL c.ifs),
-                               ihdr := some ⟨C.bits, c.ifs, 0, 0⟩ } } := by
+theorem upgradeIndexU_legacy (hok : ∀ r ∈ C.gens, (encodeRL r.2).length + 4 < two32) (dl : Option Bytes)
+    (d1 : Disk) :
+    upgradeIndexU c.ifs { data := dl, index := some ([2, 0, 0, 0, 2, C.bits] ++ logBytes C.gens), disk := d1 } =
+      some { data := dl, disk := { d1 with ifiles := setFiles d1.ifiles 0 (C.ifilesL c.ifs),
+                                           ihdr := some ⟨C.bits, c.ifs, 0, 0⟩ } } := by
   unfold upgradeIndexU
   simp only [readOldHeader_legacy, ne_eq, not_true_eq_false, if_false]
   have hp := parseOldIndex_log C.gens hok [2, 0, 0, 0, 2, C.bits]
@@ -99,22 +101,76 @@ theorem upgradeIndexU_legacy (hok : ∀ r ∈ C.gens, (encodeRL r.2).length + 4 
 theorem gens_enc32 (hwf : LegacyWFU c U C) : ∀ r ∈ C.gens, (encodeRL r.2).length + 4 < two32 :=
   fun r hr => (hwf.gensOK r hr).2.2
 
+/-- the disk after the primary phase -/
+def diskP (c : Cfg) (C : LegacyC) : Disk :=
+  { free := some [], freeGc := none, pfiles := setFiles [] 0 (C.pfilesL c.pfs), phdr := some ⟨c.pfs, 0⟩ }
+
+/-- index.Open on the chunked, not yet remapped index (old index file gone); a leftover legacy primary
+    `dl` is carried along -/
+theorem openIndexU_chunked (hc : c.Legal) (hwf : LegacyWFU c U C)
+    (hn1 : C.recs.length < 1073741824) (hn2 : C.gens.length < 1073741824) (dl : Option Bytes) :
+    ∃ ifs, openIndexU c c.pfs 0 (C.lastP c)
+        { data := dl, disk := C.diskPre c (setFiles [] 0 (C.ifilesL c.ifs)) } [] =
+        some ({ data := dl, disk := C.diskU c ifs }, c.bits, c.ifs, C.tableT c, C.lastI c, []) ∧
+      (∀ f, f ≤ C.lastI c → ifs.get? f = some (logBytes (C.lgU c f))) ∧
+      (∀ f, C.lastI c < f → ifs.get? f = none) := by
+  obtain ⟨p1, p2, p3, p4⟩ := openIndex_pre c hc
+  have hscan := openIndex_scan0 c hc (C.diskPre c (setFiles [] 0 (C.ifilesL c.ifs)))
+    (C.lastI c) (C.lg c.ifs) rfl rfl (fun f hf => ifiles0_get f hf) (ifiles0_none _ (by omega))
+    (fun f _ r hr => (lg_recOK hwf f r hr).1)
+  obtain ⟨files', hs1, hs2⟩ := hscan
+  obtain ⟨ifs, hr1, hr2, hr3⟩ := remapIndexU_legacy hc hwf hn1 hn2 dl files' hs2
+  refine ⟨ifs, ?_, hr2, hr3⟩
+  unfold openIndexU
+  simp only [p1, p2, if_false, p4]
+  have hup : upgradeIndexU c.ifs { data := dl, disk := C.diskPre c (setFiles [] 0 (C.ifilesL c.ifs)) } =
+      some { data := dl, disk := C.diskPre c (setFiles [] 0 (C.ifilesL c.ifs)) } := rfl
+  have e3 : ¬ (c.bits ≠ 0 ∧ False) := fun h => h.2
+  rw [if_neg e3, hup]
+  have hr1' : remapIndexU { data := dl, disk := C.diskPre c files' } ⟨c.bits, c.ifs, 0, 0⟩ c.pfs 0
+      (C.lastP c) (scanTo c.ifs (C.lg c.ifs) (C.lastI c)) [] =
+      some ({ data := dl, disk := C.diskU c ifs }, []) := hr1
+  simp only [diskPre] at hs1 hr1' ⊢
+  simp only [if_true]
+  rw [hs1]
+  simp only
+  rw [hr1']
+  rfl
+
+/-- index.Open after the primary phase, the old index file still there (also: after an interruption
+    anywhere between the end of the primary phase and the removal of the old index) -/
+theorem openIndexU_legacy (hc : c.Legal) (hwf : LegacyWFU c U C)
+    (hn1 : C.recs.length < 1073741824) (hn2 : C.gens.length < 1073741824) (dl : Option Bytes) :
+    ∃ ifs, openIndexU c c.pfs 0 (C.lastP c)
+        { data := dl, index := some C.dir.index, disk := C.diskP c } [] =
+        some ({ data := dl, disk := C.diskU c ifs }, c.bits, c.ifs, C.tableT c, C.lastI c, []) ∧
+      (∀ f, f ≤ C.lastI c → ifs.get? f = some (logBytes (C.lgU c f))) ∧
+      (∀ f, C.lastI c < f → ifs.get? f = none) := by
+  obtain ⟨p1, p2, p3, p4⟩ := openIndex_pre c hc
+  obtain ⟨ifs, h1, h2, h3⟩ := openIndexU_chunked hc hwf hn1 hn2 dl
+  refine ⟨ifs, ?_, h2, h3⟩
+  rw [← h1]
+  have hup := upgradeIndexU_legacy (c := c) (C := C) (gens_enc32 hwf) dl (C.diskP c)
+  have hup2 : upgradeIndexU c.ifs { data := dl, disk := C.diskPre c (setFiles [] 0 (C.ifilesL c.ifs)) } =
+      some { data := dl, disk := C.diskPre c (setFiles [] 0 (C.ifilesL c.ifs)) } := rfl
+  have e1 : ({ data := dl, index := some C.dir.index, disk := C.diskP c } : UDir) =
+      { data := dl, index := some ([2, 0, 0, 0, 2, C.bits] ++ logBytes C.gens), disk := C.diskP c } := rfl
+  have e2 : ({ data := dl, disk := { C.diskP c with ifiles := setFiles (C.diskP c).ifiles 0 (C.ifilesL c.ifs),
+                                                     ihdr := some ⟨C.bits, c.ifs, 0, 0⟩ } } : UDir) =
+      { data := dl, disk := C.diskPre c (setFiles [] 0 (C.ifilesL c.ifs)) } := by
+    rw [hwf.bits]; rfl
+  unfold openIndexU
+  simp only [p1, p2, if_false, p4]
+  rw [e1, hup, e2, hup2]
+
 /-- the upgrading OpenStore on the directory of well-formed legacy contents -/
 theorem upgradeOpen_legacy (hc : c.Legal) (hk : c.kind = .mh) (hwf : LegacyWFU c U C)
     (hn1 : C.recs.length < 1073741824) (hn2 : C.gens.length < 1073741824) :
     ∃ ifs, upgradeOpen c C.dir [] = some (C.diskU c ifs, C.memU c ifs) ∧
       (∀ f, f ≤ C.lastI c → ifs.get? f = some (logBytes (C.lgU c f))) ∧
       (∀ f, C.lastI c < f → ifs.get? f = none) := by
-  obtain ⟨p1, p2, p3, p4⟩ := openIndex_pre c hc
-  -- the index open on the chunked files
-  have hscan := openIndex_scan0 c hc
-    { ihdr := some ⟨c.bits, c.ifs, 0, 0⟩, ifiles := setFiles [] 0 (C.ifilesL c.ifs), snap := none,
-      phdr := some ⟨c.pfs, 0⟩, pfiles := setFiles [] 0 (C.pfilesL c.pfs), free := some [], freeGc := none }
-    (C.lastI c) (C.lg c.ifs) rfl rfl (fun f hf => ifiles0_get f hf) (ifiles0_none _ (by omega))
-    (fun f _ r hr => (lg_recOK hwf f r hr).1)
-  obtain ⟨files', hs1, hs2⟩ := hscan
-  obtain ⟨ifs, hr1, hr2, hr3⟩ := remapIndexU_legacy hc hwf hn1 hn2 files' hs2
-  refine ⟨ifs, ?_, hr2, hr3⟩
+  obtain ⟨ifs, hi1, hi2, hi3⟩ := openIndexU_legacy hc hwf hn1 hn2 none
+  refine ⟨ifs, ?_, hi2, hi3⟩
   unfold upgradeOpen openU
   simp only [hk, ne_eq, not_true_eq_false, if_false]
   have hprim := openPrimaryU_legacy c hc C hwf.recSize hwf.freedOK hn1 (some C.dir.index)
@@ -123,31 +179,11 @@ theorem upgradeOpen_legacy (hc : c.Legal) (hk : c.kind = .mh) (hwf : LegacyWFU c
         disk := openFreelist { free := C.dir.free } } := rfl
   rw [e0, hprim]
   simp only
-  unfold openIndexU
-  simp only [p1, p2, if_false, p4]
-  have hup := upgradeIndexU_legacy (c := c) (C := C) (gens_enc32 hwf)
-    { free := some [], freeGc := none, pfiles := setFiles [] 0 (C.pfilesL c.pfs), phdr := some ⟨c.pfs, 0⟩ }
-  have e1 : ({ data := none, index := some C.dir.index,
-               disk := { free := some [], freeGc := none, pfiles := setFiles [] 0 (C.pfilesL c.pfs),
-                         phdr := some ⟨c.pfs, 0⟩ } } : UDir) =
-      { index := some ([2, 0, 0, 0, 2, C.bits] ++ logBytes C.gens),
+  have hi1' : openIndexU c c.pfs 0 ((C.pfilesL c.pfs).length - 1)
+      { data := none, index := some C.dir.index,
         disk := { free := some [], freeGc := none, pfiles := setFiles [] 0 (C.pfilesL c.pfs),
-                  phdr := some ⟨c.pfs, 0⟩ } } := rfl
-  rw [e1, hup]
-  simp only [hwf.bits, if_true]
-  have e2 : ({ ihdr := some ⟨c.bits, c.ifs, 0, 0⟩, ifiles := setFiles ([] : NMap Bytes) 0 (C.ifilesL c.ifs),
-               free := some [], freeGc := none, pfiles := setFiles [] 0 (C.pfilesL c.pfs),
-               phdr := some ⟨c.pfs, 0⟩ } : Disk) =
-      { ihdr := some ⟨c.bits, c.ifs, 0, 0⟩, ifiles := setFiles [] 0 (C.ifilesL c.ifs), snap := none,
-        phdr := some ⟨c.pfs, 0⟩, pfiles := setFiles [] 0 (C.pfilesL c.pfs), free := some [], freeGc := none } := rfl
-  have e3 : ¬ (c.bits ≠ 0 ∧ False) := fun h => h.2
-  rw [if_neg e3]
-  rw [hs1]
-  simp only
-  have hr1' : remapIndexU { disk := C.diskPre c files' } ⟨c.bits, c.ifs, 0, 0⟩ c.pfs 0
-      ((C.pfilesL c.pfs).length - 1) (scanTo c.ifs (C.lg c.ifs) (C.lastI c)) [] =
-      some ({ disk := C.diskU c ifs }, []) := hr1
-  erw [hr1']
+                  phdr := some ⟨c.pfs, 0⟩ } } [] = _ := hi1
+  rw [hi1']
   simp only [List.isEmpty_nil, if_true]
   rfl
 
